@@ -838,7 +838,7 @@ func c19HTTP(s *simkit.Sim, rc *simkit.RunCtx, sample *c19Sample) {
 		var code int
 		var body []byte
 		if !op("activate", func() {
-			code, body = cl.Call("POST", "/internal/discovery/v1/sim-svc/vendorB", map[string]interface{}{})
+			code, body = cl.Call("POST", "/internal/discovery/v1/sim-svc/vendorB", `{"registrationParameters":{"k":"v"}}`)
 		}) {
 			return
 		}
